@@ -247,7 +247,7 @@ def render_exp(e, t=None, prog=None):
     raise TypeError(e)
 
 
-def render(prog, stage_src="vstage", invocation=True, include_call=True):
+def render(prog, stage_src="vstage", invocation=True, include_call=True, stage_lang="exec"):
     out = []
     for ft in prog.get("filetypes", []):
         out.append("filetype %s;" % ft)
@@ -264,7 +264,7 @@ def render(prog, stage_src="vstage", invocation=True, include_call=True):
             out.append("    in  %s %s," % (type_str(p["t"]), p["n"]))
         for p in st["outs"]:
             out.append("    out %s %s," % (type_str(p["t"]), p["n"]))
-        out.append("    src exec %s," % q(stage_src + " " + st["name"]))
+        out.append("    src %s %s," % (stage_lang, q(stage_src + " " + st["name"])))
         if st["split"]:
             out.append(") split (")
             out.append("    in  int ci,")
